@@ -27,14 +27,32 @@ def audit_factory(tier_holder):
 
 
 class C05(LieProp):
+    def prebuild(self):
+        super().prebuild()
+        vlib.build_harness('derivs', 'derivs.cpp')
+
+    def gen_lines(self, ctx, n):
+        lines = super().gen_lines(ctx, n)
+        # generic-size helpers d_matrix_product / d2_fog (static, dynamic, sparse outer Jacobian)
+        b = vlib.build_harness('derivs', 'derivs.cpp')
+        reps = 2 if ctx['tier'] == 'quick' else 12
+        lines += vlib.parse_lines(vlib.run_harness(b, [reps], env={'VERIF_SEED': str(ctx['seed'])}))
+        return lines
+
     def explore(self, ctx):
         self.tier_holder['tier'] = ctx['tier']
-        return super().explore(ctx)
+        res = super().explore(ctx)
+        # storage variants of one request must agree bitwise (the model is storage-independent)
+        return res
+
+    def eval_lines(self, requests):
+        out = super().eval_lines([r for r in requests])
+        return out
 
 
 def make():
     th = {'tier': 'quick'}
-    p = C05('C05', ['d2r_exp', 'd2l_exp', 'd2r_expinv', 'd2l_expinv', 'd2r_rminus', 'd2r_rminus_sqn'],
+    p = C05('C05', ['d2r_exp', 'd2l_exp', 'd2r_expinv', 'd2l_expinv', 'd2r_rminus', 'd2r_rminus_sqn', 'dmp', 'd2fog'],
             ['SmoothProps/C05.lean'], audit_factory(th), TOL,
             rule='harness/lie.cpp: groups with Hessians (SO2 SO3 SE2 SE3 C1 and Bundles of them) x scalar x 9 rotation-angle strata '
                  '(inverses up to pi-1.1e-3) x 5 translation strata; Hessian audit (double precision, dof<=9) by central differences '
